@@ -14,7 +14,7 @@ pub mod hier;
 pub mod kernel;
 pub mod oracle;
 
-use gen::{data_class, gaussian_method, wide_gaussian_method, kernel_method, link, records, theta, DataClass};
+use gen::{data_class, gaussian_method, kernel_method_any, wide_gaussian_method, kernel_method, link, records, theta, DataClass};
 use hier::{check_hier, Crit, HCase};
 use kernel::{check_kernel, KCase};
 use oracle::{Link, KM};
@@ -23,8 +23,19 @@ use vengine::gen::SplitMix;
 use vengine::{enum_sub, prop_sub, Property, Tier};
 
 fn kernel_strategy(max_n: usize) -> impl Strategy<Value = KCase> {
-    (records(2, max_n, data_class()), kernel_method(), any::<u16>(), 1u8..=3, any::<u64>(), 0u8..6).prop_map(
-        |((class, x), method, k, rhs_cols, rhs_seed, path)| KCase { class, x, method, k, rhs_cols, rhs_seed, path },
+    (records(2, max_n, data_class()), kernel_method_any(), any::<u16>(), 1u8..=3, any::<u64>(), 0u8..6).prop_map(
+        |((class, mut x), (method, nonneg), k, rhs_cols, rhs_seed, path)| {
+            if nonneg {
+                // fractional polynomial degree: reflect the records into the non-negative orthant so that every
+                // base <x_i, x_j> + c (c >= 0) is >= 0 and the power is defined
+                for row in x.iter_mut() {
+                    for v in row.iter_mut() {
+                        *v = v.abs();
+                    }
+                }
+            }
+            KCase { class, x, method, k, rhs_cols, rhs_seed, path }
+        },
     )
 }
 
@@ -90,9 +101,9 @@ fn all_num_clusters(max_n: usize) -> Vec<HCase> {
 fn tiny_kernels() -> Vec<KCase> {
     let mut v = vec![];
     for n in [0usize, 1] {
-        for method in [KM::Linear, KM::Gaussian(1.0), KM::Gaussian(0.01), KM::Polynomial(1.0, 2), KM::Polynomial(0.0, 3)] {
+        for method in [KM::Linear, KM::Gaussian(1.0), KM::Gaussian(0.01), KM::Polynomial(1.0, 2.0), KM::Polynomial(0.0, 3.0), KM::Polynomial(0.5, 2.5), KM::Polynomial(0.0, 0.5), KM::Polynomial(-2.0, 3.0)] {
             for path in 0..6u8 {
-                let x: gen::Mat = (0..n).map(|_| vec![1.5, -2.0]).collect();
+                let x: gen::Mat = (0..n).map(|_| vec![1.5, 2.0]).collect();
                 v.push(KCase { class: DataClass::Gaussian, x, method: method.clone(), k: 0, rhs_cols: 1 + path % 3, rhs_seed: 7 + path as u64, path });
             }
         }
@@ -140,7 +151,7 @@ pub fn property() -> Property {
                or a NumClusters request with 1 < requested < n or requested > n; distinct = distinct canonical JSON of the case",
         assumptions: vec![
             "f64 only; record rows are contiguous (KdTree documents a panic otherwise); 0 < k < n (documented panic otherwise), so sparse kernels need n >= 2; n = 0 and n = 1 are covered by two small enumerations (dense kernels)".into(),
-            "Gaussian kernel function = exp(-|x-y|^2 / eps) (pinned by linfa's own gaussian_test) with eps in 10^[-2,2]; polynomial constant in [0,3], degree in {1,2,3}; records: p in 1..=4 columns, |coordinates| below about 8".into(),
+            "Gaussian kernel function = exp(-|x-y|^2 / eps) (pinned by linfa's own gaussian_test) with eps in 10^[-2,2]; polynomial: integral degree 0..=4 with constant in [-3,3.6] (quarters, tenths, integers) on any records (negative bases included), or fractional degree (multiples of 1/4 up to 3.75, tenths up to 3.5) with constant >= 0 on records reflected into the non-negative orthant, so that every base <x,y>+c is >= 0 (zero bases included); (negative base)^(fractional degree) is NaN by definition and is kept out of the generator; negative degrees are not generated (0^-d is infinite); clustering sub-checks use integral degrees 1..=3 and constants in [0,3] only; reference power = repeated multiplication / sqrt(sqrt(b))^(4d) / exp(d ln b), tolerance = image of the error interval of the base under the power + 64 eps (1+|d ln b|) |v|; records: p in 1..=4 columns, |coordinates| below about 8".into(),
             "kernel entries vs the independent formula: |a-b| <= 64 eps * scale (+1e-300), scale = sum |x_i y_i| (+|c|) for linear/polynomial (propagated through the power), (1+t) exp(-t) with t = |x-y|^2/eps for Gaussian".into(),
             "symmetry of the dense matrix, equality of sparse stored values with the dense ones, column/diagonal/upper-triangle vs the densified matrix: bit equality (same arithmetic / plain copies)".into(),
             "sum and dot vs the densified matrix: (64 + 2n) eps * sum of absolute terms".into(),
@@ -156,7 +167,7 @@ pub fn property() -> Property {
         subs: vec![
             prop_sub("kernel", 50000, 250000, |t: Tier| kernel_strategy(t.pick(24, 60)), check_kernel)
                 .chunks(16)
-            .require(&["knn_relation_asymmetric", "knn_tie_at_rank_k"]),
+            .require(&["knn_relation_asymmetric", "knn_tie_at_rank_k", "poly_fractional_degree", "poly_zero_base", "poly_negative_base", "poly_negative_constant"]),
             prop_sub(
                 "threshold",
                 100000,
